@@ -73,3 +73,22 @@ void h_cond_signal_bcast(void)
               ABT_cond_wait((ABT_cond)&cv, ABT_MUTEX_NULL) == ABT_ERR_INV_MUTEX, "NULL handles rejected");
     VF_REACH("signal/broadcast return");
 }
+
+/* a fresh condition variable (uninitialised memory or ABT_COND_INITIALIZER) has no waiter and no associated mutex;
+ * a condition variable with waiters cannot be freed (1.x API) */
+void h_cond_create(void)
+{
+    ABT_cond h = (ABT_cond)0x55; vf_lock_held = 0; VF_ASSUME(vf_clock < 100 && vf_acquires < 100 && vf_releases < 100);
+    int r = ABT_cond_create(&h);
+    if (r != ABT_SUCCESS) { VF_ASSERT(r == ABT_ERR_MEM && h == ABT_COND_NULL, "failed creation: ABT_ERR_MEM and the NULL handle"); VF_REACH("cond create failed"); return; }
+    ABTI_cond *p = ABTI_cond_get_ptr(h);
+    VF_ASSERT(p->lock.val.val == 0 && p->p_waiter_mutex == NULL && p->waitlist.p_head == NULL && p->waitlist.p_tail == NULL, "a fresh condition variable: lock free, no waiter, no mutex associated yet");
+    ABT_cond_memory cm = ABT_COND_INITIALIZER; ABTI_cond *ps = ABTI_cond_get_ptr(ABT_COND_MEMORY_GET_HANDLE(&cm));
+    VF_ASSERT(sizeof(ABTI_cond) <= sizeof(ABT_cond_memory) && ps->lock.val.val == 0 && ps->p_waiter_mutex == NULL && ps->waitlist.p_head == NULL && ps->waitlist.p_tail == NULL, "ABT_COND_INITIALIZER denotes the same state");
+    int busy; if (busy) { static ABTI_thread w; p->waitlist.p_head = &w; p->waitlist.p_tail = &w; }
+    r = ABT_cond_free(&h);
+    if (busy) VF_ASSERT(r == ABT_ERR_COND && h != ABT_COND_NULL, "a condition variable somebody waits on is not freed");
+    else VF_ASSERT(r == ABT_SUCCESS && h == ABT_COND_NULL, "free releases once, handle reset");
+    if (busy) { p->waitlist.p_head = NULL; p->waitlist.p_tail = NULL; ABT_cond_free(&h); } /* no leak in the harness */
+    VF_REACH("cond create/free"); VF_COVER(busy, "busy");
+}
